@@ -115,6 +115,8 @@ def _havoc(interp, frame, spec, modified_names, tag):
         if ty is None:
             raise Unsupported('loop %s#%s assigns %r which is not declared in modifies'
                               % (spec.qname, spec.ordinal, name))
+        if ty == 'in-place':
+            continue
         if ty == 'local':      # a loop-local temporary: dead at loop head
             frame.locals.pop(name, None)
             continue
@@ -123,6 +125,18 @@ def _havoc(interp, frame, spec, modified_names, tag):
         if name.startswith('ghost:'):
             # ghost state (interp.st.ghost) changed by models/contracts called in the body
             interp.st.ghost[name[6:]] = ty.make(interp, '%s@%s' % (name, tag))
+            continue
+        if ty == 'in-place':
+            # a mutable object (symbolic map, or instance holding one) changed by calls in the body:
+            # its contents are forgotten, its identity is kept
+            obj = frame.locals.get(name) if '.' not in name else None
+            if obj is None and '.' in name:
+                base, _, attr = name.partition('.')
+                obj = frame.locals.get(base)
+                for a in attr.split('.'):
+                    obj = interp.getattr(obj, a) if obj is not None else None
+            if obj is None or not models.havoc_mutable(interp, obj, '%s@%s' % (name, tag)):
+                raise Unsupported('modifies entry %r (in-place): nothing to havoc' % name)
             continue
         if name not in modified_names and ty != 'local' and not name.startswith('@'):
             if '.' in name:
